@@ -83,6 +83,11 @@ def fingerprint(v, depth=0, seen=None):
     """canonical, address-free description of a value (used for before/after comparison and for digests)"""
     if seen is None:
         seen = set()
+    if hasattr(v, "cache_info") and callable(getattr(v, "cache_info", None)) and not isinstance(v, type):
+        try:
+            return "<cached %s %r>" % (getattr(v, "__qualname__", "?"), tuple(v.cache_info()))
+        except Exception:
+            pass
     if v is None or isinstance(v, (bool, int, str, bytes)):
         return repr(v)
     if isinstance(v, (float, np.floating)):
@@ -127,6 +132,9 @@ def fingerprint(v, depth=0, seen=None):
 
 def _defaults(fn):
     out = {}
+    fd = getattr(fn, "__dict__", None)
+    if fd:
+        out["attrs"] = fingerprint({k: v for k, v in fd.items() if k != "__wrapped__"})
     if fn.__defaults__:
         for i, d in enumerate(fn.__defaults__):
             out["default%d" % i] = fingerprint(d)
